@@ -16,3 +16,5 @@ pub mod stats;
 pub mod tests;
 pub mod units;
 pub mod values;
+#[cfg(feature = "verif-hooks")]
+pub mod verif_hooks;
